@@ -152,7 +152,12 @@ auto fit(const configurable_t& configurable, const dataset_t& dataset, const ind
         woutputs.zero();
         best_wlearner->predict(dataset, samples, woutputs.tensor());
 
-        const auto cluster  = make_cluster(dataset, samples, *best_wlearner, wscale);
+        const auto cluster = make_cluster(dataset, samples, *best_wlearner, wscale);
+        if (cluster.groups() == 0)
+        {
+            // NB: the chosen weak learner doesn't split the samples (e.g. look-up table of a feature without values)
+            break;
+        }
         const auto function = scale_function_t{train_targets_iterator, loss, cluster, outputs, woutputs};
 
         auto gstate = solver.minimize(function, make_full_vector<scalar_t>(function.size(), 1.0), logger);
